@@ -48,7 +48,10 @@ def _detect_ssc(
                 return (file, True)
             elif suffix == "sm":
                 return (file, False)
-        parser = parse_msd(file=file, ignore_stray_text=not strict)
+        # Peeking consumes the file object, so read it once and hand the
+        # buffered text on to the loader
+        file = StringIO(file.read())
+        parser = parse_msd(string=file.getvalue(), ignore_stray_text=not strict)
     else:
         file, peek_file = [StringIO("".join(f)) for f in tee(file)]
         parser = parse_msd(
